@@ -1235,7 +1235,7 @@ class VM:
 
         if isinstance(obj, JSRegExp):
             # RegExp methods and properties
-            if key_str in ("test", "exec"):
+            if key_str in ("test", "exec", "toString", "valueOf"):
                 return self._make_regexp_method(obj, key_str)
             # RegExp properties
             if key_str in (
@@ -1846,9 +1846,17 @@ class VM:
             except RegexTimeoutError:
                 raise TimeLimitError("Regex execution timeout")
 
+        def toString_fn(*args):
+            return "/" + to_string(re.get("source")) + "/" + to_string(re.get("flags"))
+
+        def valueOf_fn(*args):
+            return re
+
         methods = {
             "test": test_fn,
             "exec": exec_fn,
+            "toString": toString_fn,
+            "valueOf": valueOf_fn,
         }
         return methods.get(method, lambda *args: UNDEFINED)
 
